@@ -362,6 +362,17 @@ func (m *c29Model) LookupSend(_ context.Context, q ca.IdempotencyQuery) (ca.Send
 	return ca.SendResult{MessageID: rec.ID, MessageSeq: rec.Seq, Reason: ca.ReasonSuccess}, true, nil
 }
 
+// storedHash returns the payload hash persisted with the record at seq.
+func (m *c29Model) storedHash(id ca.ChannelID, seq uint64) uint64 {
+	m.mu.Lock()
+	defer m.mu.Unlock()
+	ch := m.chans[id]
+	if ch == nil || seq == 0 || seq > uint64(len(ch.log)) {
+		return 0
+	}
+	return ch.log[seq-1].Hash
+}
+
 // Snapshot returns copies for the oracle (call when the system is quiescent or
 // accept a consistent-at-an-instant view).
 func (m *c29Model) Snapshot() (map[ca.ChannelID][]c29Record, map[ca.ChannelID]int, map[string]int, map[string]int, []string) {
